@@ -386,6 +386,12 @@ def _game_call(chk, ctx) -> None:
     if len(calls) != 1:
         raise AnalysisError('Poker.__call__ no longer builds exactly one State(...)')
     call = calls[0]
+    params = set(fi.params)
+
+    plain = globals()['_name_of']
+
+    def _name_of(e):         # a bare name must be a parameter of __call__: a local of the same name is a re-computed value
+        return None if isinstance(e, ast.Name) and e.id not in params else plain(e)
     got = [_name_of(a) for a in call.args]
     chk.ob('C11.game_call', 'Poker.__call__:positional', got == init_fields, fi.loc,
            'each positional argument of State(...) is the same-named game attribute / parameter',
